@@ -1,894 +1,24 @@
 /-
 C13 — crops and patches are pixel-exact and honour their boundary contract.
-Property theorems over the executable model `Core/C13Crop.lean` (core Lean only, no Mathlib).
-PROPERTY marks the theorems registered in the harness; the rest are helper lemmas.
+
+The property theorems live in four files over the executable models Core/C13Crop.lean and
+Core/C13Api.lean (all core Lean, no Mathlib); this module collects them (it is the build target and
+the import of the axiom audit, harness/c13.py THEOREMS):
+
+  Lemmas/C13Base.lean     crop (pixel exactness in any dimension, landmarks, boundary contract and the
+                          refutation of the coded `or`), slicing path, sampling path layout (and the
+                          refutation of the literal channel count), path equivalence at integers, fill
+  Lemmas/C13Set.lean      set_patches vs extraction: for which centres the round trip holds
+                          (`int()` vs `np.round`), the shifted write-back otherwise, the repaired placement
+  Lemmas/C13Sampler.lean  order-1 = bilinear, reproduces samples; 'constant' fills; 'nearest' = clamp
+  Lemmas/C13Seq.lean      a history of crops: exactness and landmark registration by induction over the sequence
+  Lemmas/C13Api.lean      crop_to_pointcloud / landmarks / proportion / true_mask (the last row / column),
+                          extract_patches dispatch and shape for every order and mode, list format,
+                          round trip through the public defaults
 -/
-import MenpoModel.Core.C13Crop
-import MenpoModel.Lemmas.C13NDArr
-namespace MenpoModel.C13
-open MenpoModel.PyData
-
-theorem half_floor : (1/2 : Rat).floor = 0 := by decide +kernel
-theorem floor_int_add_half (k : Int) : ((k : Rat) + 1/2).floor = k := by
-  rw [Rat.add_comm, Rat.floor_add_intCast, half_floor]; omega
-theorem nearest_inside (n : Nat) (x : Int) (h0 : 0 ≤ x) (h1 : x < n) :
-    ¬((x : Rat) < 0 ∨ ((((n : Int) - 1 : Int)) : Rat) < (x : Rat)) := by
-  intro h
-  rcases h with h | h
-  · have := (Rat.intCast_lt_intCast (a := x) (b := 0)).1 (by simpa using h); omega
-  · have := (Rat.intCast_lt_intCast).1 h; omega
-
-/-- the request stays inside the image along this axis -/
-def Axis.inside (a : Axis) : Prop := 0 ≤ a.lo ∧ a.hi ≤ (a.n : Int)
-instance (a : Axis) : Decidable a.inside := by unfold Axis.inside; exact inferInstance
-
-theorem clampB_eq_iff (n : Nat) (x : Int) : clampB n x = x ↔ 0 ≤ x ∧ x ≤ (n : Int) := by
-  simp only [clampB]; split <;> split <;> omega
-
-theorem clampB_range (n : Nat) (x : Int) : 0 ≤ clampB n x ∧ clampB n x ≤ (n : Int) := by
-  simp only [clampB]; split <;> split <;> omega
-
-/-- the clamped bounds are the intersection of the requested half-open interval with the image -/
-theorem clamp_is_intersection (a : Axis) (x : Int) :
-    (a.loB ≤ x ∧ x < a.hiB) ↔ ((a.lo ≤ x ∧ x < a.hi) ∧ (0 ≤ x ∧ x < (a.n : Int))) := by
-  simp only [Axis.loB, Axis.hiB, clampB]
-  repeat' split
-  all_goals omega
-
-theorem all_inside_iff (axes : List Axis) (hpos : ∀ a ∈ axes, a.lo < a.hi) :
-    ((axes.all fun a => a.loB == a.lo) && (axes.all fun a => a.hiB == a.hi)) = true ↔ ∀ a ∈ axes, a.inside := by
-  simp only [Bool.and_eq_true, List.all_eq_true, beq_iff_eq, Axis.loB, Axis.hiB, clampB_eq_iff, Axis.inside]
-  constructor
-  · intro h a ha; have := h.1 a ha; have := h.2 a ha; omega
-  · intro h; constructor <;> intro a ha <;> have := h a ha <;> have := hpos a ha <;> omega
-
-theorem raises_repaired (constrain : Bool) (axes : List Axis) (hpos : ∀ a ∈ axes, a.lo < a.hi) :
-    raises .repaired constrain axes = true ↔ (constrain = false ∧ ¬ ∀ a ∈ axes, a.inside) := by
-  have h := all_inside_iff axes hpos
-  simp only [raises]
-  generalize ((axes.all fun a => a.loB == a.lo) && (axes.all fun a => a.hiB == a.hi)) = b at h ⊢
-  cases constrain <;> cases b <;> simp_all
-
-theorem cropBounds_ok_or (v : Variant) (shape : List Nat) (mn mx : List Rat) (constrain : Bool)
-    (hlen : mn.length = shape.length ∧ mx.length = shape.length)
-    (hpos : ∀ a ∈ mkAxes shape mn mx, a.lo < a.hi) :
-    cropBounds v shape mn mx constrain =
-      if raises v constrain (mkAxes shape mn mx) then .error .boundary else .ok (mkAxes shape mn mx) := by
-  unfold cropBounds
-  have : (mkAxes shape mn mx).all (fun a => decide (a.hi > a.lo)) = true := by
-    simp only [List.all_eq_true, decide_eq_true_eq]; exact hpos
-  simp [hlen, this]
-
-/-- PROPERTY (boundary contract, repaired decision). -/
-theorem crop_boundary_contract (shape : List Nat) (mn mx : List Rat) (constrain : Bool)
-    (hlen : mn.length = shape.length ∧ mx.length = shape.length)
-    (hpos : ∀ a ∈ mkAxes shape mn mx, a.lo < a.hi) :
-    ((∀ a ∈ mkAxes shape mn mx, a.inside) →
-        cropBounds .repaired shape mn mx constrain = .ok (mkAxes shape mn mx) ∧
-        ∀ a ∈ mkAxes shape mn mx, a.loB = a.lo ∧ a.hiB = a.hi) ∧
-    ((¬ ∀ a ∈ mkAxes shape mn mx, a.inside) → constrain = true →
-        cropBounds .repaired shape mn mx constrain = .ok (mkAxes shape mn mx)) ∧
-    ((¬ ∀ a ∈ mkAxes shape mn mx, a.inside) → constrain = false →
-        cropBounds .repaired shape mn mx constrain = .error .boundary) := by
-  have hr := raises_repaired constrain (mkAxes shape mn mx) hpos
-  rw [cropBounds_ok_or .repaired shape mn mx constrain hlen hpos]
-  refine ⟨?_, ?_, ?_⟩
-  · intro hin
-    have : raises .repaired constrain (mkAxes shape mn mx) = false := by
-      cases h : raises .repaired constrain (mkAxes shape mn mx) with
-      | false => rfl
-      | true => exact absurd hin (hr.1 h).2
-    refine ⟨by simp [this], ?_⟩
-    intro a ha
-    have := hin a ha
-    simp only [Axis.loB, Axis.hiB, clampB_eq_iff, Axis.inside] at *
-    have := hpos a ha
-    omega
-  · intro hout hc
-    have : raises .repaired constrain (mkAxes shape mn mx) = false := by
-      cases h : raises .repaired constrain (mkAxes shape mn mx) with
-      | false => rfl
-      | true => have := (hr.1 h).1; simp_all
-    simp [this]
-  · intro hout hc
-    have : raises .repaired constrain (mkAxes shape mn mx) = true := hr.2 ⟨hc, hout⟩
-    simp [this]
-
-/-- an `ok` answer is never silently altered: it is the request itself, or constraining was allowed -/
-theorem crop_never_silently_altered (shape : List Nat) (mn mx : List Rat) (constrain : Bool) (axes : List Axis)
-    (h : cropBounds .repaired shape mn mx constrain = .ok axes) :
-    axes = mkAxes shape mn mx ∧ (constrain = true ∨ ∀ a ∈ axes, a.loB = a.lo ∧ a.hiB = a.hi) := by
-  simp only [cropBounds] at h
-  split at h
-  · cases h
-  · split at h
-    · cases h
-    · rename_i hall
-      split at h
-      · cases h
-      · rename_i hr
-        injection h with h
-        subst h
-        refine ⟨rfl, ?_⟩
-        cases constrain with
-        | true => exact Or.inl rfl
-        | false =>
-          right
-          intro a ha
-          simp only [raises, Bool.false_or, Bool.not_eq_true, Bool.not_eq_false', Bool.and_eq_true, List.all_eq_true, beq_iff_eq] at hr
-          exact ⟨hr.1 a ha, hr.2 a ha⟩
-
-/-- REFUTATION of the coded decision (`or`): a request leaving the image on one side only is
-answered with clipped bounds although constraining is disabled. -/
-theorem crop_coded_silently_clips :
-    ∃ (shape : List Nat) (mn mx : List Rat) (axes : List Axis),
-      cropBounds .coded shape mn mx false = .ok axes ∧
-      (∃ a ∈ axes, ¬ a.inside) ∧ (∃ a ∈ axes, a.loB ≠ a.lo) :=
-  ⟨[6, 7], [-2, 1], [3, 4], [⟨6, -2, 3⟩, ⟨7, 1, 4⟩], by decide +kernel,
-    ⟨⟨6, -2, 3⟩, by simp, by decide⟩, ⟨⟨6, -2, 3⟩, by simp, by decide⟩⟩
-
-/-- the same request under the repaired decision is refused -/
-example : cropBounds .repaired [6, 7] [-2, 1] [3, 4] false = .error .boundary := by decide +kernel
-example : cropBounds .repaired [6, 7] [-2, 1] [3, 4] true = .ok [⟨6, -2, 3⟩, ⟨7, 1, 4⟩] := by decide +kernel
-
-
-/-- the source multi-index template index `p` is read from: `p + ⌊min⌋_clamped` -/
-def shiftIdx : List Nat → List Axis → List Nat
-  | i :: p, a :: as => (i + a.loB.toNat) :: shiftIdx p as
-  | _, _ => []
-
-theorem get?_some_of_WF {α : Type} (a : NDArr α) (h : a.WF) (idx : List Nat) (hi : inRange a.shape idx = true) :
-    ∃ v, a.get? idx = some v := by
-  have := offset_lt a.shape idx hi
-  unfold NDArr.WF at h
-  simp only [NDArr.get?, hi, if_true]
-  exact ⟨a.data[offset a.shape idx]'(by omega), List.getElem?_eq_getElem _⟩
-
-theorem nearest_shift (axes : List Axis) : ∀ (p : List Nat), inRange (axes.map Axis.len) p = true →
-    nearestIdxC (axes.map Axis.n) (shiftPt p axes) = some (shiftIdx p axes) ∧
-    inRange (axes.map Axis.n) (shiftIdx p axes) = true := by
-  induction axes with
-  | nil => intro p h; cases p <;> simp_all [inRange, nearestIdxC, shiftPt, shiftIdx]
-  | cons a as ih =>
-    intro p h
-    cases p with
-    | nil => simp [inRange] at h
-    | cons i p =>
-      simp only [List.map_cons, inRange, Bool.and_eq_true, decide_eq_true_eq] at h
-      obtain ⟨h1, h2⟩ := ih p h.2
-      have hr := clampB_range a.n a.lo
-      have hr2 := clampB_range a.n a.hi
-      have hi : (i : Int) + a.loB < a.n := by
-        have := h.1; unfold Axis.len at this; unfold Axis.loB Axis.hiB at *; omega
-      have h0 : 0 ≤ (i : Int) + a.loB := by unfold Axis.loB; omega
-      have hin := nearest_inside a.n ((i : Int) + a.loB) h0 hi
-      simp only [List.map_cons, shiftPt, nearestIdxC, hin, if_false, h1, Option.map_some, shiftIdx,
-        floor_int_add_half, inRange, h2, Bool.and_true, decide_eq_true_eq]
-      have e : ((i : Int) + a.loB).toNat = i + a.loB.toNat := by unfold Axis.loB at *; omega
-      refine ⟨by rw [e], ?_⟩
-      unfold Axis.loB at *; omega
-
-/-- PROPERTY (pixel exactness of crop): the cropped array has extent `hiB − loB` per axis and its
-element at `(c, p)` is the source element at `(c, p + loB)`, for every channel and every `p`. -/
-theorem crop_exact {α : Type} (pix : NDArr α) (C : Nat) (axes : List Axis) (zero : α)
-    (hshape : pix.shape = C :: axes.map Axis.n) (hwf : pix.WF) :
-    (cropPixels pix axes zero).shape = C :: axes.map Axis.len ∧
-    ∀ (c : Nat) (p : List Nat), c < C → inRange (axes.map Axis.len) p = true →
-      (cropPixels pix axes zero).get? (c :: p) = pix.get? (c :: shiftIdx p axes) ∧
-      ((cropPixels pix axes zero).get? (c :: p)).isSome = true := by
-  refine ⟨by simp [cropPixels, ofFn, hshape], ?_⟩
-  intro c p hc hp
-  obtain ⟨h1, h2⟩ := nearest_shift axes p hp
-  have hin : inRange pix.shape (c :: shiftIdx p axes) = true := by
-    simp [hshape, inRange, hc, h2]
-  obtain ⟨v, hv⟩ := get?_some_of_WF pix hwf _ hin
-  have : (cropPixels pix axes zero).get? (c :: p) = some v := by
-    unfold cropPixels
-    rw [get_ofFn _ _ _ (by simp [hshape, inRange, hc, hp])]
-    simp [sample0c, hshape, h1, NDArr.getD, hv]
-  rw [this, hv]; simp
-
-
-
-theorem crop_landmarks_registered (axes : List Axis) : ∀ (p : List Nat), p.length = axes.length →
-    cropLandmarks axes [(shiftIdx p axes).map fun (i : Nat) => (i : Rat)] = [p.map fun (i : Nat) => (i : Rat)] := by
-  induction axes with
-  | nil => intro p h; cases p <;> simp_all [cropLandmarks, shiftIdx]
-  | cons a as ih =>
-    intro p h
-    cases p with
-    | nil => simp at h
-    | cons i p =>
-      have := ih p (by simpa using h)
-      simp only [cropLandmarks, List.map_cons, List.map_nil, List.cons.injEq, and_true] at this ⊢
-      simp only [shiftIdx, List.map_cons, List.zipWith_cons_cons, List.cons.injEq]
-      refine ⟨?_, this⟩
-      have hr := clampB_range a.n a.lo
-      have e : ((a.loB.toNat : Nat) : Int) = a.loB := by unfold Axis.loB; omega
-      have : ((a.loB.toNat : Nat) : Rat) = (a.loB : Rat) := by rw [← e]; rfl
-      rw [Rat.natCast_add, this, Rat.add_sub_cancel]
-
-/-! ### sampling path -/
-
-def sampledFn {α : Type} (sample : Nat → Pt → α) (g : List Nat → Pt) : List Nat → α
-  | c :: rest => sample c (g rest)
-  | [] => sample 0 (g [])
-
-theorem sampled_eq_ofFn {α : Type} (sample : Nat → Pt → α) (C : Nat) (s : List Nat) (g : List Nat → Pt) :
-    ((List.range C).flatMap fun c => ((indices s).map g).map (sample c)) =
-      (indices (C :: s)).map (sampledFn sample g) := by
-  simp only [indices, List.map_flatMap, List.map_map]
-  rfl
-
-/-- PROPERTY (patch layout, repaired reshape): for every channel count the sampling path returns
-an array of shape `(centres, offsets, channels, ph, pw)` whose element `(i, j, c, r, q)` is the
-sample of channel `c` at `centre_i + offset_j + grid(r, q)` — whatever the sampler (order, mode). -/
-theorem sampling_patch_layout {α : Type} (sample : Nat → Pt → α) (C ph pw : Nat) (centres : List Pt)
-    (offsets : Option (List Pt)) (dflt : α) :
-    ∃ out, extractSampling .repaired sample C ph pw centres offsets dflt = .ok out ∧
-      out.shape = [centres.length, (offsets.getD [(0, 0)]).length, C, ph, pw] ∧
-      ∀ i j c r q, inRange [centres.length, (offsets.getD [(0, 0)]).length, C, ph, pw] [i, j, c, r, q] = true →
-        out.get? [i, j, c, r, q] =
-          some (sample c (samplePt ph pw (getPt centres i) (getPt (offsets.getD [(0, 0)]) j) r q)) := by
-  generalize hoffs : offsets.getD [(0, 0)] = offs
-  unfold extractSampling
-  simp only [hoffs]
-  rw [sampled_eq_ofFn]
-  simp only [reshape, List.length_map, length_indices, if_true]
-  refine ⟨_, rfl, rfl, ?_⟩
-  intro i j c r q hin
-  rw [get_ofFn _ _ _ hin]
-  simp only [inRange, Bool.and_eq_true, decide_eq_true_eq, Bool.and_true] at hin
-  have hin2 : inRange [C, ph, pw, centres.length, offs.length] [c, r, q, i, j] = true := by
-    simp [inRange]; omega
-  have := get_ofFn [C, ph, pw, centres.length, offs.length]
-    (sampledFn sample (samplePtAt ph pw centres offs)) [c, r, q, i, j] hin2
-  simp only [ofFn] at this
-  simp only [NDArr.getD, this, Option.getD_some, sampledFn, samplePtAt]
-
-/-- REFUTATION of the coded reshape (literal 3): with any channel count other than three and a
-non-empty request the sampling path raises (numpy: cannot reshape) instead of returning patches. -/
-theorem sampling_coded_fails {α : Type} (sample : Nat → Pt → α) (C ph pw : Nat) (centres : List Pt)
-    (offsets : Option (List Pt)) (dflt : α) (hC : C ≠ 3)
-    (hne : 0 < ph * (pw * (centres.length * (offsets.getD [(0, 0)]).length))) :
-    extractSampling .coded sample C ph pw centres offsets dflt = .error .value := by
-  generalize hoffs : offsets.getD [(0, 0)] = offs at hne
-  unfold extractSampling
-  simp only [hoffs]
-  rw [sampled_eq_ofFn]
-  simp only [reshape, List.length_map, length_indices, sz]
-  rw [if_neg]
-  intro h
-  simp only [Nat.mul_one] at h hne
-  exact hC (Nat.eq_of_mul_eq_mul_right hne h)
-
-example : extractSampling .coded (fun c (_ : Pt) => c) 3 2 2 [(1, 1)] none 0 =
-    extractSampling .repaired (fun c (_ : Pt) => c) 3 2 2 [(1, 1)] none 0 := by decide +kernel
-
-
-
-theorem adjBound_facts (len : Nat) (v : Int) :
-    (v < -(len : Int) ∧ adjBound len false v = 0) ∨
-    (-(len : Int) ≤ v ∧ v < 0 ∧ adjBound len false v = v + len) ∨
-    (0 ≤ v ∧ v < len ∧ adjBound len false v = v) ∨
-    ((len : Int) ≤ v ∧ adjBound len false v = len) := by
-  simp only [adjBound]
-  repeat' split
-  all_goals first | omega | simp_all
-
-theorem adjBound_id (len : Nat) (v : Int) (h0 : 0 ≤ v) (h1 : v ≤ len) : adjBound len false v = v := by
-  rcases adjBound_facts len v with h | h | h | h <;> omega
-
-theorem clip0_facts (n : Nat) (x : Int) :
-    (x < 0 ∧ clip0 n x = 0) ∨ (0 ≤ x ∧ x ≤ n ∧ clip0 n x = x) ∨ ((n : Int) < x ∧ clip0 n x = n) := by
-  simp only [clip0]
-  repeat' split
-  all_goals omega
-
-theorem plan_arith (n ph : Nat) (lo a b s0 s1 : Int)
-    (c1 : (lo < 0 ∧ a = 0) ∨ (0 ≤ lo ∧ lo ≤ n ∧ a = lo) ∨ ((n : Int) < lo ∧ a = n))
-    (c2 : (lo + ph < 0 ∧ b = 0) ∨ (0 ≤ lo + ph ∧ lo + ph ≤ n ∧ b = lo + ph) ∨ ((n : Int) < lo + ph ∧ b = n))
-    (a1 : (a - lo < -(ph : Int) ∧ s0 = 0) ∨ (-(ph : Int) ≤ a - lo ∧ a - lo < 0 ∧ s0 = a - lo + ph) ∨
-      (0 ≤ a - lo ∧ a - lo < ph ∧ s0 = a - lo) ∨ ((ph : Int) ≤ a - lo ∧ s0 = ph))
-    (a2 : ((ph : Int) + (b - (lo + ph)) < -(ph : Int) ∧ s1 = 0) ∨
-      (-(ph : Int) ≤ (ph : Int) + (b - (lo + ph)) ∧ (ph : Int) + (b - (lo + ph)) < 0 ∧ s1 = (ph : Int) + (b - (lo + ph)) + ph) ∨
-      (0 ≤ (ph : Int) + (b - (lo + ph)) ∧ (ph : Int) + (b - (lo + ph)) < ph ∧ s1 = (ph : Int) + (b - (lo + ph))) ∨
-      ((ph : Int) ≤ (ph : Int) + (b - (lo + ph)) ∧ s1 = ph)) :
-    (SlicePlan.mk s0.toNat s1.toNat a.toNat b.toNat).ok = true ∧
-    ∀ r, r < ph →
-      ((SlicePlan.mk s0.toNat s1.toNat a.toNat b.toNat).covers r = true ↔ (0 ≤ lo + r ∧ lo + r < n)) ∧
-      ((SlicePlan.mk s0.toNat s1.toNat a.toNat b.toNat).covers r = true →
-        (((SlicePlan.mk s0.toNat s1.toNat a.toNat b.toNat).src r : Nat) : Int) = lo + r) := by
-  simp only [SlicePlan.ok, SlicePlan.covers, SlicePlan.src,
-    SlicePlan.tlen, SlicePlan.slen, Bool.or_eq_true, beq_iff_eq, Bool.and_eq_true]
-  simp only [decide_eq_true_eq]
-  refine ⟨by omega, ?_⟩
-  intro r hr
-  refine ⟨by omega, ?_⟩
-  intro hc
-  split <;> omega
-
-theorem clip0_range (n : Nat) (x : Int) : 0 ≤ clip0 n x ∧ clip0 n x ≤ n := by
-  rcases clip0_facts n x with h | h | h <;> omega
-
-/-- slice arithmetic of one axis, for consistent bounds `hi = lo + ph` (always the case away from
-rounding ties): the assignment is well-shaped, it covers exactly the patch rows whose source row
-`lo + r` lies inside the image, and reads them from exactly that row. -/
-theorem axisPlan_spec (n ph : Nat) (lo : Int) :
-    (axisPlan n ph lo (lo + ph)).ok = true ∧
-    ∀ r, r < ph →
-      ((axisPlan n ph lo (lo + ph)).covers r = true ↔ (0 ≤ lo + r ∧ lo + r < n)) ∧
-      ((axisPlan n ph lo (lo + ph)).covers r = true → (((axisPlan n ph lo (lo + ph)).src r : Nat) : Int) = lo + r) := by
-  have h := plan_arith n ph lo (clip0 n lo) (clip0 n (lo + ph)) _ _ (clip0_facts n lo) (clip0_facts n (lo + ph))
-    (adjBound_facts ph (clip0 n lo - lo)) (adjBound_facts ph ((ph : Int) + (clip0 n (lo + ph) - (lo + ph))))
-  have e : axisPlan n ph lo (lo + ph) = SlicePlan.mk (adjBound ph false (clip0 n lo - lo)).toNat
-      (adjBound ph false ((ph : Int) + (clip0 n (lo + ph) - (lo + ph)))).toNat (clip0 n lo).toNat (clip0 n (lo + ph)).toNat := by
-    simp only [axisPlan, pySliceN]
-    rw [adjBound_id n _ (clip0_range n lo).1 (clip0_range n lo).2,
-      adjBound_id n _ (clip0_range n (lo + ph)).1 (clip0_range n (lo + ph)).2]
-  rw [e]; exact h
-
-
-/-- reference value of a patch pixel: the source pixel at integer location `(x, y)` of channel `c`,
-the fill value when that location is outside the image -/
-def pixAt {α : Type} (pix : NDArr α) (c : Nat) (x y : Int) (cval : α) : α :=
-  match pix.shape with
-  | [_, H, W] => if 0 ≤ x ∧ x < (H : Int) ∧ 0 ≤ y ∧ y < (W : Int) then pix.getD [c, x.toNat, y.toNat] cval else cval
-  | _ => cval
-
-theorem inRange2 (n k : Nat) (ij : List Nat) (h : inRange [n, k] ij = true) :
-    ∃ i j, ij = [i, j] ∧ i < n ∧ j < k := by
-  match ij, h with
-  | [i, j], h => exact ⟨i, j, rfl, by simp [inRange] at h; omega⟩
-  | [], h => simp [inRange] at h
-  | [_], h => simp [inRange] at h
-  | _ :: _ :: _ :: _, h => simp [inRange] at h
-
-/-- the low corner (row, column) of the window the slicing path reads for centre `i`, offset `j` -/
-def sliceLo (ph pw : Nat) (ctr off : Pt) : Int × Int :=
-  ((sliceBounds ph ctr.1 off.1).1, (sliceBounds pw ctr.2 off.2).1)
-
-/-- the rounded corners of a window are `ph` (`pw`) apart — true away from rounding ties -/
-def Consistent (ph pw : Nat) (ctr off : Pt) : Prop :=
-  (sliceBounds ph ctr.1 off.1).2 = (sliceBounds ph ctr.1 off.1).1 + ph ∧
-  (sliceBounds pw ctr.2 off.2).2 = (sliceBounds pw ctr.2 off.2).1 + pw
-
-theorem window_elem_eq {α : Type} (pix : NDArr α) (C H W : Nat) (hshape : pix.shape = [C, H, W])
-    (ph pw : Nat) (lr lc : Int) (c r q : Nat) (hr : r < ph) (hq : q < pw) (cval : α) :
-    (if ((axisPlan H ph lr (lr + ph)).covers r && (axisPlan W pw lc (lc + pw)).covers q) = true then
-      pix.getD [c, (axisPlan H ph lr (lr + ph)).src r, (axisPlan W pw lc (lc + pw)).src q] cval else cval) =
-    pixAt pix c (lr + r) (lc + q) cval := by
-  obtain ⟨hr1, hr2⟩ := (axisPlan_spec H ph lr).2 r hr
-  obtain ⟨hq1, hq2⟩ := (axisPlan_spec W pw lc).2 q hq
-  simp only [pixAt, hshape]
-  by_cases hcr : (axisPlan H ph lr (lr + ph)).covers r = true
-  · by_cases hcq : (axisPlan W pw lc (lc + pw)).covers q = true
-    · have e1 := hr2 hcr
-      have e2 := hq2 hcq
-      have i1 := hr1.1 hcr
-      have i2 := hq1.1 hcq
-      rw [if_pos (by simp [hcr, hcq]), if_pos ⟨i1.1, i1.2, i2.1, i2.2⟩]
-      have e1' : (axisPlan H ph lr (lr + ph)).src r = (lr + (r : Int)).toNat := by omega
-      have e2' : (axisPlan W pw lc (lc + pw)).src q = (lc + (q : Int)).toNat := by omega
-      rw [e1', e2']
-    · have : ¬ (0 ≤ lc + (q : Int) ∧ lc + (q : Int) < W) := fun h => hcq (hq1.2 h)
-      rw [if_neg (by simp [hcq]), if_neg (by intro h; exact this ⟨h.2.2.1, h.2.2.2⟩)]
-  · have : ¬ (0 ≤ lr + (r : Int) ∧ lr + (r : Int) < H) := fun h => hcr (hr1.2 h)
-    rw [if_neg (by simp [hcr]), if_neg (by intro h; exact this ⟨h.1, h.2.1⟩)]
-
-/-- PROPERTY (slicing path, pixel exactness and fill): away from rounding ties the slicing path
-never raises, returns shape `(centres, offsets, C, ph, pw)` for every `C`, and patch pixel `(r, q)`
-is the source pixel at `(lo_r + r, lo_c + q)` when that lies inside the image and `cval` otherwise. -/
-theorem extractSlice_spec {α : Type} (pix : NDArr α) (C H W : Nat) (hshape : pix.shape = [C, H, W])
-    (centres : List Pt) (ph pw : Nat) (offsets : Option (List Pt)) (cval : α)
-    (hcons : ∀ i j, i < centres.length → j < (offsets.getD [(0, 0)]).length →
-      Consistent ph pw (getPt centres i) (getPt (offsets.getD [(0, 0)]) j)) :
-    ∃ out, extractSlice pix centres ph pw offsets cval = .ok out ∧
-      out.shape = [centres.length, (offsets.getD [(0, 0)]).length, C, ph, pw] ∧
-      ∀ i j c r q, inRange [centres.length, (offsets.getD [(0, 0)]).length, C, ph, pw] [i, j, c, r, q] = true →
-        out.get? [i, j, c, r, q] =
-          some (pixAt pix c ((sliceLo ph pw (getPt centres i) (getPt (offsets.getD [(0, 0)]) j)).1 + r)
-                            ((sliceLo ph pw (getPt centres i) (getPt (offsets.getD [(0, 0)]) j)).2 + q) cval) := by
-  generalize hoffs : offsets.getD [(0, 0)] = offs at hcons ⊢
-  unfold extractSlice
-  simp only [hshape, hoffs]
-  have hall : ((indices [centres.length, offs.length]).all
-      (plansOK fun i j => slicePlans H W ph pw (getPt centres i) (getPt offs j))) = true := by
-    rw [List.all_eq_true]
-    intro ij hij
-    obtain ⟨i, j, rfl, hi, hj⟩ := inRange2 _ _ ij ((mem_indices _ _).1 hij)
-    obtain ⟨h1, h2⟩ := hcons i j hi hj
-    simp only [plansOK, slicePlans, h1, h2, Bool.and_eq_true]
-    exact ⟨(axisPlan_spec H ph _).1, (axisPlan_spec W pw _).1⟩
-  rw [if_pos hall]
-  refine ⟨_, rfl, rfl, ?_⟩
-  intro i j c r q hin
-  rw [get_ofFn _ _ _ hin]
-  simp only [inRange, Bool.and_eq_true, decide_eq_true_eq, Bool.and_true] at hin
-  obtain ⟨h1, h2⟩ := hcons i j hin.1 hin.2.1
-  simp only [sliceElem, slicePlans, sliceLo]
-  simp only [h1, h2]
-  exact congrArg some (window_elem_eq pix C H W hshape ph pw _ _ c r q hin.2.2.2.1 hin.2.2.2.2 cval)
-
-
-
-theorem zero_lt_half : (0 : Rat) < 1/2 := by decide +kernel
-
-theorem roundHalfEven_intCast (k : Int) : roundHalfEven (k : Rat) = k := by
-  simp only [roundHalfEven, Rat.floor_intCast]
-  have : (k : Rat) - (k : Rat) = 0 := by grind
-  rw [this, if_pos zero_lt_half]
-
-theorem natCast_div_mod (ph : Nat) : (ph : Rat) = 2 * ((ph / 2 : Nat) : Rat) + ((ph % 2 : Nat) : Rat) := by
-  have h := Nat.div_add_mod ph 2
-  have : ((2 * (ph / 2) + ph % 2 : Nat) : Rat) = (ph : Rat) := by rw [h]
-  rw [← this, Rat.natCast_add, Rat.natCast_mul]; rfl
-
-/-- the low corner offset of a window of extent `ph` around an integer centre: `-(ph // 2)` -/
-theorem lo_arg (ph : Nat) (c o : Int) :
-    (c : Rat) + halfPixel ph + (o : Rat) + -halfExt ph = (((c + o - ((ph / 2 : Nat) : Int) : Int)) : Rat) := by
-  have h := natCast_div_mod ph
-  simp only [halfPixel, halfExt, Rat.intCast_sub, Rat.intCast_add, Rat.intCast_natCast]
-  grind
-
-theorem hi_arg (ph : Nat) (c o : Int) :
-    (c : Rat) + halfPixel ph + (o : Rat) + halfExt ph = (((c + o - ((ph / 2 : Nat) : Int) + (ph : Int) : Int)) : Rat) := by
-  have h := natCast_div_mod ph
-  simp only [halfPixel, halfExt, Rat.intCast_sub, Rat.intCast_add, Rat.intCast_natCast]
-  grind
-
-theorem grid_arg (ph a : Nat) (c o : Int) :
-    gridCoord ph a + (c : Rat) + (o : Rat) = (((c + o - ((ph / 2 : Nat) : Int) + (a : Int) : Int)) : Rat) := by
-  have h := natCast_div_mod ph
-  simp only [gridCoord, halfPixel, halfExt, Rat.intCast_sub, Rat.intCast_add, Rat.intCast_natCast]
-  grind
-
-/-- at integer centres and offsets the rounded window corners are exact and `ph` apart -/
-theorem sliceBounds_int (ph : Nat) (c o : Int) :
-    sliceBounds ph (c : Rat) (o : Rat) = (c + o - ((ph / 2 : Nat) : Int), c + o - ((ph / 2 : Nat) : Int) + (ph : Int)) := by
-  simp only [sliceBounds, lo_arg, hi_arg, roundHalfEven_intCast]
-
-
-theorem intCast_lt_zero_iff (x : Int) : (x : Rat) < 0 ↔ x < 0 := by
-  have := Rat.intCast_lt_intCast (a := x) (b := 0)
-  simpa using this
-
-/-- order-0 constant-mode sampling at an integer location is the reference pixel -/
-theorem sample0c_int {α : Type} (pix : NDArr α) (C H W : Nat) (hshape : pix.shape = [C, H, W])
-    (c : Nat) (x y : Int) (cval : α) :
-    sample0c pix c [(x : Rat), (y : Rat)] cval = pixAt pix c x y cval := by
-  simp only [sample0c, pixAt, hshape, List.tail_cons, nearestIdxC, floor_int_add_half,
-    intCast_lt_zero_iff, Rat.intCast_lt_intCast]
-  by_cases hx : x < 0 ∨ (H : Int) - 1 < x
-  · rw [if_pos hx, if_neg (by omega)]
-  · rw [if_neg hx]
-    by_cases hy : y < 0 ∨ (W : Int) - 1 < y
-    · rw [if_pos hy]; simp only [Option.map_none]; rw [if_neg (by omega)]
-    · rw [if_neg hy, if_pos (by omega)]; rfl
-
-/-- integer-valued points -/
-def toPt (p : Int × Int) : Pt := ((p.1 : Rat), (p.2 : Rat))
-
-theorem getPt_map (l : List (Int × Int)) (i : Nat) : getPt (l.map toPt) i = toPt (l.getD i (0, 0)) := by
-  simp only [getPt, List.getD_eq_getElem?_getD, List.getElem?_map]
-  cases l[i]? <;> simp [toPt]
-
-/-- the low corner of the window around integer centre `c`, offset `o` -/
-def winLo (ph pw : Nat) (c o : Int × Int) : Int × Int :=
-  (c.1 + o.1 - ((ph / 2 : Nat) : Int), c.2 + o.2 - ((pw / 2 : Nat) : Int))
-
-theorem consistent_int (ph pw : Nat) (c o : Int × Int) : Consistent ph pw (toPt c) (toPt o) := by
-  simp only [Consistent, toPt, sliceBounds_int, and_self]
-
-theorem sliceLo_int (ph pw : Nat) (c o : Int × Int) : sliceLo ph pw (toPt c) (toPt o) = winLo ph pw c o := by
-  simp only [sliceLo, toPt, sliceBounds_int, winLo]
-
-theorem samplePt_int (ph pw : Nat) (c o : Int × Int) (a b : Nat) :
-    samplePt ph pw (toPt c) (toPt o) a b =
-      ((((winLo ph pw c o).1 + (a : Int) : Int) : Rat), (((winLo ph pw c o).2 + (b : Int) : Int) : Rat)) := by
-  simp only [samplePt, toPt, grid_arg, winLo]
-
-def offsZ (offsets : Option (List (Int × Int))) : List (Int × Int) := offsets.getD [(0, 0)]
-
-theorem getD_map_offs (offsets : Option (List (Int × Int))) :
-    (offsets.map (List.map toPt)).getD [(0, 0)] = (offsZ offsets).map toPt := by
-  cases offsets <;> simp [offsZ, toPt]
-
-/-- PROPERTY (both paths, integer centres and offsets): each path returns shape
-`(centres, offsets, C, ph, pw)` and patch pixel `(i, j, c, r, q)` is the source pixel at
-`(centre_i + offset_j − ⌊(ph, pw)/2⌋ + (r, q))`, the fill value when that lies outside the image. -/
-theorem patches_at_integers {α : Type} (pix : NDArr α) (C H W : Nat) (hshape : pix.shape = [C, H, W])
-    (cz : List (Int × Int)) (ph pw : Nat) (oz : Option (List (Int × Int))) (cval : α) :
-    (∃ out, extractSlice pix (cz.map toPt) ph pw (oz.map (List.map toPt)) cval = .ok out ∧
-      out.shape = [cz.length, (offsZ oz).length, C, ph, pw] ∧
-      ∀ i j c r q, inRange [cz.length, (offsZ oz).length, C, ph, pw] [i, j, c, r, q] = true →
-        out.get? [i, j, c, r, q] = some (pixAt pix c
-          ((winLo ph pw (cz.getD i (0, 0)) ((offsZ oz).getD j (0, 0))).1 + r)
-          ((winLo ph pw (cz.getD i (0, 0)) ((offsZ oz).getD j (0, 0))).2 + q) cval)) ∧
-    (∃ out, extractSampling0c .repaired pix (cz.map toPt) ph pw (oz.map (List.map toPt)) cval = .ok out ∧
-      out.shape = [cz.length, (offsZ oz).length, C, ph, pw] ∧
-      ∀ i j c r q, inRange [cz.length, (offsZ oz).length, C, ph, pw] [i, j, c, r, q] = true →
-        out.get? [i, j, c, r, q] = some (pixAt pix c
-          ((winLo ph pw (cz.getD i (0, 0)) ((offsZ oz).getD j (0, 0))).1 + r)
-          ((winLo ph pw (cz.getD i (0, 0)) ((offsZ oz).getD j (0, 0))).2 + q) cval)) := by
-  constructor
-  · obtain ⟨out, h1, h2, h3⟩ := extractSlice_spec pix C H W hshape (cz.map toPt) ph pw (oz.map (List.map toPt)) cval
-      (by intro i j _ _; rw [getD_map_offs, getPt_map, getPt_map]; exact consistent_int ph pw _ _)
-    rw [getD_map_offs] at h2 h3
-    simp only [List.length_map] at h2 h3
-    refine ⟨out, h1, h2, ?_⟩
-    intro i j c r q hin
-    rw [h3 i j c r q hin, getPt_map, getPt_map, sliceLo_int]
-  · obtain ⟨out, h1, h2, h3⟩ := sampling_patch_layout (fun c pt => sample0c pix c [pt.1, pt.2] cval) C ph pw
-      (cz.map toPt) (oz.map (List.map toPt)) cval
-    rw [getD_map_offs] at h2 h3
-    simp only [List.length_map] at h2 h3
-    refine ⟨out, by simp only [extractSampling0c, hshape]; exact h1, h2, ?_⟩
-    intro i j c r q hin
-    rw [h3 i j c r q hin, getPt_map, getPt_map, samplePt_int]
-    simp only []
-    rw [sample0c_int pix C H W hshape]
-
-
-
-/-- PROPERTY (path equivalence): at integer centres and offsets the slicing path and the sampling
-path (order 0, constant mode, repaired reshape) return the same shape and the same pixels. -/
-theorem slice_eq_sampling_at_integers {α : Type} (pix : NDArr α) (C H W : Nat) (hshape : pix.shape = [C, H, W])
-    (cz : List (Int × Int)) (ph pw : Nat) (oz : Option (List (Int × Int))) (cval : α) :
-    ∃ a b, extractSlice pix (cz.map toPt) ph pw (oz.map (List.map toPt)) cval = .ok a ∧
-      extractSampling0c .repaired pix (cz.map toPt) ph pw (oz.map (List.map toPt)) cval = .ok b ∧
-      a.shape = b.shape ∧ a.shape = [cz.length, (offsZ oz).length, C, ph, pw] ∧
-      ∀ i j c r q, inRange a.shape [i, j, c, r, q] = true → a.get? [i, j, c, r, q] = b.get? [i, j, c, r, q] := by
-  obtain ⟨⟨a, ha1, ha2, ha3⟩, ⟨b, hb1, hb2, hb3⟩⟩ := patches_at_integers pix C H W hshape cz ph pw oz cval
-  refine ⟨a, b, ha1, hb1, by rw [ha2, hb2], ha2, ?_⟩
-  intro i j c r q hin
-  rw [ha2] at hin
-  rw [ha3 i j c r q hin, hb3 i j c r q hin]
-
-theorem pixAt_outside {α : Type} (pix : NDArr α) (C H W : Nat) (hshape : pix.shape = [C, H, W]) (c : Nat)
-    (x y : Int) (cval : α) (hout : x < 0 ∨ (H : Int) ≤ x ∨ y < 0 ∨ (W : Int) ≤ y) : pixAt pix c x y cval = cval := by
-  simp only [pixAt, hshape]
-  rw [if_neg (by omega)]
-
-theorem pixAt_inside {α : Type} (pix : NDArr α) (C H W : Nat) (hshape : pix.shape = [C, H, W]) (hwf : pix.WF)
-    (c : Nat) (hc : c < C) (x y : Int) (cval : α) (hin : 0 ≤ x ∧ x < (H : Int) ∧ 0 ≤ y ∧ y < (W : Int)) :
-    pix.get? [c, x.toNat, y.toNat] = some (pixAt pix c x y cval) := by
-  simp only [pixAt, hshape]
-  rw [if_pos hin]
-  obtain ⟨v, hv⟩ := get?_some_of_WF pix hwf [c, x.toNat, y.toNat] (by simp [hshape, inRange]; omega)
-  simp [NDArr.getD, hv]
-
-/-- PROPERTY (fill): on both paths, at integer centres and offsets, every patch pixel whose source
-location lies outside the image equals the fill value. -/
-theorem outside_is_fill {α : Type} (pix : NDArr α) (C H W : Nat) (hshape : pix.shape = [C, H, W])
-    (cz : List (Int × Int)) (ph pw : Nat) (oz : Option (List (Int × Int))) (cval : α) :
-    ∃ a b, extractSlice pix (cz.map toPt) ph pw (oz.map (List.map toPt)) cval = .ok a ∧
-      extractSampling0c .repaired pix (cz.map toPt) ph pw (oz.map (List.map toPt)) cval = .ok b ∧
-      ∀ i j c r q, inRange [cz.length, (offsZ oz).length, C, ph, pw] [i, j, c, r, q] = true →
-        (let w := winLo ph pw (cz.getD i (0, 0)) ((offsZ oz).getD j (0, 0))
-         w.1 + r < 0 ∨ (H : Int) ≤ w.1 + r ∨ w.2 + q < 0 ∨ (W : Int) ≤ w.2 + q) →
-        a.get? [i, j, c, r, q] = some cval ∧ b.get? [i, j, c, r, q] = some cval := by
-  obtain ⟨⟨a, ha1, _, ha3⟩, ⟨b, hb1, _, hb3⟩⟩ := patches_at_integers pix C H W hshape cz ph pw oz cval
-  refine ⟨a, b, ha1, hb1, ?_⟩
-  intro i j c r q hin hout
-  rw [ha3 i j c r q hin, hb3 i j c r q hin, pixAt_outside pix C H W hshape c _ _ cval hout]
-  exact ⟨rfl, rfl⟩
-
-/-- order-0 constant-mode sampling returns the fill value at any location with a coordinate outside
-`[0, n − 1]` (fractional locations included) -/
-theorem sample0c_outside {α : Type} (pix : NDArr α) (C H W : Nat) (hshape : pix.shape = [C, H, W]) (c : Nat)
-    (x y : Rat) (cval : α)
-    (hout : x < 0 ∨ ((((H : Int) - 1 : Int)) : Rat) < x ∨ y < 0 ∨ ((((W : Int) - 1 : Int)) : Rat) < y) :
-    sample0c pix c [x, y] cval = cval := by
-  simp only [sample0c, hshape, List.tail_cons, nearestIdxC]
-  by_cases hx : x < 0 ∨ ((((H : Int) - 1 : Int)) : Rat) < x
-  · rw [if_pos hx]
-  · rw [if_neg hx]
-    have hy : y < 0 ∨ ((((W : Int) - 1 : Int)) : Rat) < y := by
-      rcases hout with h | h | h | h
-      · exact absurd (Or.inl h) hx
-      · exact absurd (Or.inr h) hx
-      · exact Or.inl h
-      · exact Or.inr h
-    rw [if_pos hy]; rfl
-
-
-
-theorem truncZ_intCast (k : Int) : truncZ (k : Rat) = k := by
-  simp only [truncZ, Rat.floor_intCast, Rat.ceil_intCast, ite_self]
-
-/-- the window of centre `c` (offset `o`) lies inside the image -/
-def Interior (H W ph pw : Nat) (c o : Int × Int) : Prop :=
-  0 ≤ (winLo ph pw c o).1 ∧ (winLo ph pw c o).1 + (ph : Int) ≤ H ∧
-  0 ≤ (winLo ph pw c o).2 ∧ (winLo ph pw c o).2 + (pw : Int) ≤ W
-
-theorem pySliceN_window (n ph : Nat) (p : Int) (h0 : 0 ≤ p - ((ph / 2 : Nat) : Int))
-    (h1 : p - ((ph / 2 : Nat) : Int) + (ph : Int) ≤ n) :
-    pySliceN n (p - ((ph / 2 : Nat) : Int)) (p + ((ph / 2 + ph % 2 : Nat) : Int)) =
-      ((p - ((ph / 2 : Nat) : Int)).toNat, (p - ((ph / 2 : Nat) : Int)).toNat + ph) := by
-  simp only [pySliceN]
-  rw [adjBound_id n _ h0 (by omega), adjBound_id n _ (by omega) (by omega)]
-  congr 1
-  omega
-
-/-- one iteration of `set_patches` with a patch that was extracted from the same window of an
-array that agrees with `pix`: the array still agrees with `pix` everywhere -/
-theorem setOne_inv {α : Type} (pix cur patches : NDArr α) (C H W n k ph pw : Nat)
-    (hshape : pix.shape = [C, H, W]) (hwf : pix.WF) (hcur : cur.shape = [C, H, W])
-    (hagree : ∀ idx, inRange [C, H, W] idx = true → cur.get? idx = pix.get? idx)
-    (hps : patches.shape = [n, k, C, ph, pw]) (i oi : Nat) (hoi : oi < k) (c o : Int × Int) (cval : α)
-    (hint : Interior H W ph pw c o)
-    (hpatch : ∀ ch r q, ch < C → r < ph → q < pw →
-      patches.get? [i, oi, ch, r, q] = some (pixAt pix ch ((winLo ph pw c o).1 + r) ((winLo ph pw c o).2 + q) cval)) :
-    ∃ out, setOne patches cur i (toPt c) o oi cval = .ok out ∧ out.shape = [C, H, W] ∧
-      ∀ idx, inRange [C, H, W] idx = true → out.get? idx = pix.get? idx := by
-  obtain ⟨hi0, hi1, hi2, hi3⟩ := hint
-  simp only [winLo] at hi0 hi1 hi2 hi3 hpatch
-  simp only [setOne, hps, hcur, toPt]
-  rw [if_neg (by omega)]
-  have e1 : (c.1 : Rat) + (o.1 : Rat) = ((c.1 + o.1 : Int) : Rat) := (Rat.intCast_add _ _).symm
-  have e2 : (c.2 : Rat) + (o.2 : Rat) = ((c.2 + o.2 : Int) : Rat) := (Rat.intCast_add _ _).symm
-  simp only [e1, e2, truncZ_intCast]
-  rw [pySliceN_window H ph (c.1 + o.1) hi0 hi1, pySliceN_window W pw (c.2 + o.2) hi2 hi3]
-  simp only [Nat.add_sub_cancel_left, beq_self_eq_true, Bool.true_or, Bool.and_self, if_true]
-  refine ⟨_, rfl, rfl, ?_⟩
-  intro idx hin
-  rw [get_ofFn _ _ _ hin]
-  match idx, hin with
-  | [ch, r, q], hin =>
-    simp only [inRange, Bool.and_eq_true, decide_eq_true_eq, Bool.and_true] at hin
-    obtain ⟨v, hv⟩ := get?_some_of_WF pix hwf [ch, r, q] (by simp [hshape, inRange]; omega)
-    simp only [setElem]
-    by_cases hw : (decide ((c.1 + o.1 - ((ph / 2 : Nat) : Int)).toNat ≤ r) &&
-        decide (r < (c.1 + o.1 - ((ph / 2 : Nat) : Int)).toNat + ph) &&
-        decide ((c.2 + o.2 - ((pw / 2 : Nat) : Int)).toNat ≤ q) &&
-        decide (q < (c.2 + o.2 - ((pw / 2 : Nat) : Int)).toNat + pw)) = true
-    · rw [if_pos hw]
-      simp only [Bool.and_eq_true, decide_eq_true_eq] at hw
-      have ech : (if (C == 1) = true then 0 else ch) = ch := by
-        by_cases h : C = 1
-        · simp [h]; omega
-        · simp [h]
-      have er : (if (ph == 1) = true then 0 else r - (c.1 + o.1 - ((ph / 2 : Nat) : Int)).toNat) =
-          r - (c.1 + o.1 - ((ph / 2 : Nat) : Int)).toNat := by
-        by_cases h : ph = 1
-        · simp [h]; omega
-        · simp [h]
-      have eq : (if (pw == 1) = true then 0 else q - (c.2 + o.2 - ((pw / 2 : Nat) : Int)).toNat) =
-          q - (c.2 + o.2 - ((pw / 2 : Nat) : Int)).toNat := by
-        by_cases h : pw = 1
-        · simp [h]; omega
-        · simp [h]
-      rw [ech, er, eq]
-      have hp := hpatch ch (r - (c.1 + o.1 - ((ph / 2 : Nat) : Int)).toNat)
-        (q - (c.2 + o.2 - ((pw / 2 : Nat) : Int)).toNat) hin.1 (by omega) (by omega)
-      have x1 : c.1 + o.1 - ((ph / 2 : Nat) : Int) + ((r - (c.1 + o.1 - ((ph / 2 : Nat) : Int)).toNat : Nat) : Int) = (r : Int) := by omega
-      have x2 : c.2 + o.2 - ((pw / 2 : Nat) : Int) + ((q - (c.2 + o.2 - ((pw / 2 : Nat) : Int)).toNat : Nat) : Int) = (q : Int) := by omega
-      rw [x1, x2] at hp
-      have hpin := pixAt_inside pix C H W hshape hwf ch hin.1 (r : Int) (q : Int) cval (by omega)
-      simp only [Int.toNat_natCast] at hpin
-      simp only [NDArr.getD, hp, Option.getD_some]
-      rw [hpin]
-    · rw [if_neg hw]
-      have := hagree [ch, r, q] (by simp [inRange]; omega)
-      simp only [NDArr.getD, this, hv, Option.getD_some]
-  | [], hin => simp [inRange] at hin
-  | [_], hin => simp [inRange] at hin
-  | [_, _], hin => simp [inRange] at hin
-  | _ :: _ :: _ :: _ :: _, hin => simp [inRange] at hin
-
-
-theorem setLoop_inv {α : Type} (pix patches : NDArr α) (C H W n k ph pw : Nat)
-    (hshape : pix.shape = [C, H, W]) (hwf : pix.WF)
-    (hps : patches.shape = [n, k, C, ph, pw]) (oi : Nat) (hoi : oi < k) (cz : List (Int × Int)) (o : Int × Int) (cval : α)
-    (hpatch : ∀ i ch r q, i < cz.length → ch < C → r < ph → q < pw →
-      patches.get? [i, oi, ch, r, q] = some (pixAt pix ch ((winLo ph pw (cz.getD i (0, 0)) o).1 + r)
-        ((winLo ph pw (cz.getD i (0, 0)) o).2 + q) cval))
-    (hint : ∀ c ∈ cz, Interior H W ph pw c o) :
-    ∀ (l : List (Nat × Pt)) (cur : NDArr α),
-      (∀ x ∈ l, x.1 < cz.length ∧ x.2 = toPt (cz.getD x.1 (0, 0))) →
-      cur.shape = [C, H, W] →
-      (∀ idx, inRange [C, H, W] idx = true → cur.get? idx = pix.get? idx) →
-      ∃ out, setLoop patches o oi cval l cur = .ok out ∧ out.shape = [C, H, W] ∧
-        ∀ idx, inRange [C, H, W] idx = true → out.get? idx = pix.get? idx := by
-  intro l
-  induction l with
-  | nil => intro cur _ hc ha; exact ⟨cur, rfl, hc, ha⟩
-  | cons x rest ih =>
-    intro cur hl hc ha
-    obtain ⟨i, ctr⟩ := x
-    obtain ⟨hi, hctr⟩ := hl (i, ctr) (by simp)
-    simp only at hi hctr
-    have hmem : cz.getD i (0, 0) ∈ cz := by
-      rw [List.getD_eq_getElem?_getD, List.getElem?_eq_getElem hi]; simp
-    obtain ⟨nxt, h1, h2, h3⟩ := setOne_inv pix cur patches C H W n k ph pw hshape hwf hc ha hps i oi hoi
-      (cz.getD i (0, 0)) o cval (hint _ hmem) (fun ch r q a b c => hpatch i ch r q hi a b c)
-    obtain ⟨out, g1, g2, g3⟩ := ih nxt (fun y hy => hl y (by simp [hy])) h2 h3
-    refine ⟨out, ?_, g2, g3⟩
-    simp only [setLoop, hctr, h1, g1]
-
-theorem mem_range_zip {β : Type} (n : Nat) (l : List β) (x : Nat × β) (hx : x ∈ (List.range n).zip l) :
-    x.1 < l.length ∧ l[x.1]? = some x.2 := by
-  obtain ⟨k, hk, hk2⟩ := List.mem_iff_getElem.1 hx
-  have hk' := hk
-  simp only [List.length_zip, List.length_range] at hk'
-  rw [List.getElem_zip] at hk2
-  subst hk2
-  simp only [List.getElem_range]
-  exact ⟨by omega, by simp⟩
-
-/-- PROPERTY (round trip): patches extracted (slicing path) at integer centres whose windows lie
-inside the image, written back with `set_patches` at the same centres with the same offset,
-restore the image: every pixel of the result equals the original pixel. -/
-theorem set_extract_roundtrip {α : Type} (pix : NDArr α) (C H W : Nat) (hshape : pix.shape = [C, H, W])
-    (hwf : pix.WF) (cz : List (Int × Int)) (ph pw : Nat) (oz : List (Int × Int)) (oi : Nat) (hoi : oi < oz.length)
-    (cval : α) (hint : ∀ c ∈ cz, Interior H W ph pw c (oz.getD oi (0, 0))) :
-    ∃ patches, extractSlice pix (cz.map toPt) ph pw (some (oz.map toPt)) cval = .ok patches ∧
-      ∃ out, setPatches patches pix (cz.map toPt) (oz.getD oi (0, 0)) oi cval = .ok out ∧
-        out.shape = pix.shape ∧ ∀ idx, inRange pix.shape idx = true → out.get? idx = pix.get? idx := by
-  obtain ⟨⟨patches, hp1, hp2, hp3⟩, _⟩ := patches_at_integers pix C H W hshape cz ph pw (some oz) cval
-  simp only [offsZ, Option.getD_some] at hp2 hp3
-  refine ⟨patches, hp1, ?_⟩
-  simp only [setPatches, hp2, hshape]
-  obtain ⟨out, h1, h2, h3⟩ := setLoop_inv pix patches C H W cz.length oz.length ph pw hshape hwf hp2 oi hoi cz
-    (oz.getD oi (0, 0)) cval
-    (fun i ch r q hi hch hr hq => hp3 i oi ch r q (by simp [inRange]; omega))
-    hint ((List.range cz.length).zip (cz.map toPt)) pix
-    (by
-      intro x hx
-      obtain ⟨a, b⟩ := mem_range_zip _ _ x hx
-      simp only [List.length_map] at a
-      refine ⟨a, ?_⟩
-      rw [List.getElem?_map, List.getElem?_eq_getElem a] at b
-      simp only [Option.map_some, Option.some.injEq] at b
-      rw [← b, List.getD_eq_getElem?_getD, List.getElem?_eq_getElem a]; rfl)
-    hshape (fun _ _ => rfl)
-  exact ⟨out, h1, h2, h3⟩
-
-
-
-/-- `x` is not a rounding tie -/
-def NoTie (x : Rat) : Prop := x - (x.floor : Rat) ≠ 1/2
-
-theorem roundHalfEven_add_int (x : Rat) (n : Int) (h : NoTie x) :
-    roundHalfEven (x + (n : Rat)) = roundHalfEven x + n := by
-  simp only [roundHalfEven, Rat.floor_add_intCast]
-  have e : x + (n : Rat) - ((x.floor + n : Int) : Rat) = x - (x.floor : Rat) := by
-    rw [Rat.intCast_add]; grind
-  rw [e]
-  by_cases h1 : x - (x.floor : Rat) < 1/2
-  · rw [if_pos h1, if_pos h1]
-  · rw [if_neg h1, if_neg h1]
-    have h2 : 1/2 < x - (x.floor : Rat) := by
-      unfold NoTie at h
-      grind
-    rw [if_pos h2, if_pos h2]; omega
-
-/-- away from rounding ties the two rounded corners of a window are exactly `ph` apart -/
-theorem sliceBounds_consistent (ph : Nat) (ctr off : Rat)
-    (h : NoTie (ctr + halfPixel ph + off + -halfExt ph)) :
-    (sliceBounds ph ctr off).2 = (sliceBounds ph ctr off).1 + ph := by
-  simp only [sliceBounds]
-  have e : ctr + halfPixel ph + off + halfExt ph = (ctr + halfPixel ph + off + -halfExt ph) + ((ph : Int) : Rat) := by
-    simp only [halfExt, Rat.intCast_natCast]; grind
-  rw [e, roundHalfEven_add_int _ _ h]
-
-theorem consistent_of_noTie (ph pw : Nat) (ctr off : Pt)
-    (h1 : NoTie (ctr.1 + halfPixel ph + off.1 + -halfExt ph))
-    (h2 : NoTie (ctr.2 + halfPixel pw + off.2 + -halfExt pw)) : Consistent ph pw ctr off :=
-  ⟨sliceBounds_consistent ph _ _ h1, sliceBounds_consistent pw _ _ h2⟩
-
-
-/-- PROPERTY (slicing path, any centres away from rounding ties): never raises, shape
-`(centres, offsets, C, ph, pw)` for every channel count, pixel-exact inside, fill value outside. -/
-theorem slicing_patch_layout {α : Type} (pix : NDArr α) (C H W : Nat) (hshape : pix.shape = [C, H, W])
-    (centres : List Pt) (ph pw : Nat) (offsets : Option (List Pt)) (cval : α)
-    (hnt : ∀ i j, i < centres.length → j < (offsets.getD [(0, 0)]).length →
-      NoTie ((getPt centres i).1 + halfPixel ph + (getPt (offsets.getD [(0, 0)]) j).1 + -halfExt ph) ∧
-      NoTie ((getPt centres i).2 + halfPixel pw + (getPt (offsets.getD [(0, 0)]) j).2 + -halfExt pw)) :
-    ∃ out, extractSlice pix centres ph pw offsets cval = .ok out ∧
-      out.shape = [centres.length, (offsets.getD [(0, 0)]).length, C, ph, pw] ∧
-      ∀ i j c r q, inRange [centres.length, (offsets.getD [(0, 0)]).length, C, ph, pw] [i, j, c, r, q] = true →
-        out.get? [i, j, c, r, q] =
-          some (pixAt pix c ((sliceLo ph pw (getPt centres i) (getPt (offsets.getD [(0, 0)]) j)).1 + r)
-                            ((sliceLo ph pw (getPt centres i) (getPt (offsets.getD [(0, 0)]) j)).2 + q) cval) :=
-  extractSlice_spec pix C H W hshape centres ph pw offsets cval
-    (fun i j hi hj => consistent_of_noTie ph pw _ _ (hnt i j hi hj).1 (hnt i j hi hj).2)
-
-/-- `Image.crop` is the bounds decision followed by the translation warp -/
-theorem crop_eq {α : Type} (v : Variant) (pix : NDArr α) (mn mx : List Rat) (constrain : Bool) (zero : α)
-    (lms : List (List Rat)) :
-    crop v pix mn mx constrain zero lms =
-      (cropBounds v pix.shape.tail mn mx constrain).map fun axes =>
-        (cropPixels pix axes zero, cropLandmarks axes lms) := by
-  unfold crop
-  cases cropBounds v pix.shape.tail mn mx constrain <;> rfl
-
-theorem mkAxes_spec : ∀ (shape : List Nat) (mn mx : List Rat), mn.length = shape.length → mx.length = shape.length →
-    (mkAxes shape mn mx).map Axis.n = shape ∧ (mkAxes shape mn mx).map Axis.lo = mn.map Rat.floor ∧
-    (mkAxes shape mn mx).map Axis.hi = mx.map Rat.ceil := by
-  intro shape
-  induction shape with
-  | nil => intro mn mx h1 h2; cases mn <;> cases mx <;> simp_all [mkAxes]
-  | cons n s ih =>
-    intro mn mx h1 h2
-    cases mn with
-    | nil => simp at h1
-    | cons a mn =>
-      cases mx with
-      | nil => simp at h2
-      | cons b mx =>
-        obtain ⟨i1, i2, i3⟩ := ih mn mx (by simpa using h1) (by simpa using h2)
-        simp [mkAxes, i1, i2, i3]
-
-
-/-- PROPERTY (crop, whole statement for the repaired decision): a well-formed request on an image of
-spatial shape `shape` is refused with `ImageBoundaryError` exactly when it leaves the image and
-constraining is disabled; otherwise the result has extent `hiB − loB` per axis (the request itself
-when it is inside, its intersection with the image otherwise), pixel `(c, p)` is source pixel
-`(c, p + loB)` for every channel, and the landmarks are shifted by `loB`. -/
-theorem crop_spec {α : Type} (pix : NDArr α) (C : Nat) (shape : List Nat) (mn mx : List Rat) (constrain : Bool)
-    (zero : α) (lms : List (List Rat)) (hshape : pix.shape = C :: shape) (hwf : pix.WF)
-    (hlen : mn.length = shape.length ∧ mx.length = shape.length)
-    (hpos : ∀ a ∈ mkAxes shape mn mx, a.lo < a.hi) :
-    (crop .repaired pix mn mx constrain zero lms = .error .boundary ↔
-      (constrain = false ∧ ¬ ∀ a ∈ mkAxes shape mn mx, a.inside)) ∧
-    (¬(constrain = false ∧ ¬ ∀ a ∈ mkAxes shape mn mx, a.inside) →
-      ∃ out, crop .repaired pix mn mx constrain zero lms = .ok (out, cropLandmarks (mkAxes shape mn mx) lms) ∧
-        out.shape = C :: (mkAxes shape mn mx).map Axis.len ∧
-        ∀ c p, c < C → inRange ((mkAxes shape mn mx).map Axis.len) p = true →
-          out.get? (c :: p) = pix.get? (c :: shiftIdx p (mkAxes shape mn mx)) ∧ (out.get? (c :: p)).isSome = true) := by
-  have hb := cropBounds_ok_or .repaired shape mn mx constrain hlen hpos
-  have hr := raises_repaired constrain (mkAxes shape mn mx) hpos
-  have hn := (mkAxes_spec shape mn mx hlen.1 hlen.2).1
-  rw [crop_eq, hshape, List.tail_cons, hb]
-  by_cases h : raises .repaired constrain (mkAxes shape mn mx) = true
-  · rw [if_pos h]
-    exact ⟨⟨fun _ => hr.1 h, fun _ => rfl⟩, fun hno => absurd (hr.1 h) hno⟩
-  · rw [if_neg h]
-    refine ⟨⟨fun he => (by cases he), fun hc => absurd (hr.2 hc) h⟩, fun _ => ?_⟩
-    obtain ⟨e1, e2⟩ := crop_exact pix C (mkAxes shape mn mx) zero (by rw [hshape, hn]) hwf
-    exact ⟨_, rfl, e1, e2⟩
-
-
-/-! ### non-vacuity: the hypotheses of the theorems are satisfiable on concrete, non-trivial values -/
-
-def exImg : NDArr Int := ofFn [2, 6, 7] fun idx => match idx with
-  | [c, r, q] => ((c * 42 + r * 7 + q : Nat) : Int)
-  | _ => 0
-
-example : exImg.WF := ofFn_WF _ _
-example : exImg.shape = [2, 6, 7] := rfl
--- a fractional in-bounds request: rows ⌊3/2⌋..⌈3⌉, columns ⌊1⌋..⌈9/2⌉
-example : cropBounds .repaired [6, 7] [3/2, 1] [3, 9/2] false = .ok [⟨6, 1, 3⟩, ⟨7, 1, 5⟩] := by decide +kernel
-example : ∀ a ∈ mkAxes [6, 7] [3/2, 1] [3, 9/2], a.inside := by decide +kernel
-example : ∀ a ∈ mkAxes [6, 7] [3/2, 1] [3, 9/2], a.lo < a.hi := by decide +kernel
-example : ((crop .repaired exImg [3/2, 1] [3, 9/2] false 0 [[2, 3]]).toOption.map fun r => (r.1.shape, r.1.data, r.2)) =
-    some ([2, 2, 4], [8, 9, 10, 11, 15, 16, 17, 18, 50, 51, 52, 53, 57, 58, 59, 60], [[1, 2]]) := by decide +kernel
--- a request leaving the image at the top only: clipped when allowed, refused otherwise (repaired)
-example : ¬ ∀ a ∈ mkAxes [6, 7] [-2, 1] [3, 4], a.inside := by decide +kernel
-example : ((crop .repaired exImg [-2, 1] [3, 4] true 0 []).toOption.map fun r => r.1.shape) = some [2, 3, 3] := by
-  decide +kernel
--- patches: integer centres, one interior, one at the corner (outside pixels take the fill value −1)
-example : ((extractSlice exImg [(2, 3), (0, 0)] 3 2 none (-1)).toOption.map fun p => (p.shape, p.data)) =
-    some ([2, 1, 2, 3, 2], [9, 10, 16, 17, 23, 24, 51, 52, 58, 59, 65, 66,
-                            -1, -1, -1, 0, -1, 7, -1, -1, -1, 42, -1, 49]) := by decide +kernel
-example : extractSlice exImg [(2, 3), (0, 0)] 3 2 none (-1) =
-    extractSampling0c .repaired exImg [(2, 3), (0, 0)] 3 2 none (-1) := by decide +kernel
-example : extractSampling0c .coded exImg [(2, 3), (0, 0)] 3 2 none (-1) = .error .value := by decide +kernel
-example : Interior 6 7 3 2 (2, 3) (0, 0) := by unfold Interior winLo; decide
-example : Interior 6 7 3 2 (3, 4) (1, -1) := by unfold Interior winLo; decide
-example : NoTie (27/10 + halfPixel 3 + 0 + -halfExt 3) := by unfold NoTie; decide +kernel
-example : ¬ NoTie (5/2 + halfPixel 3 + 0 + -halfExt 3) := by unfold NoTie; decide +kernel
--- round trip on the example (two overlapping interior windows, second offset of two)
-example : ((extractSlice exImg [(2, 3), (3, 4)] 3 2 (some [(0, 0), (1, -1)]) (-1)).toOption.bind fun p =>
-    (setPatches p exImg [(2, 3), (3, 4)] (1, -1) 1 0).toOption) = some exImg := by decide +kernel
-
--- observation (not a property clause, see INFO["partial"] of harness/c13.py): at a fractional centre
--- `set_patches` truncates (`int()`) while extraction rounds, so the write-back lands one row off
-example : ((extractSlice exImg [(27/10, 3)] 3 2 none (-1)).toOption.bind fun p =>
-    (setPatches p exImg [(27/10, 3)] (0, 0) 0 0).toOption) ≠ some exImg := by decide +kernel
-example : ((extractSlice exImg [(9/4, 3)] 3 2 none (-1)).toOption.bind fun p =>
-    (setPatches p exImg [(9/4, 3)] (0, 0) 0 0).toOption) = some exImg := by decide +kernel
-
-end MenpoModel.C13
+import MenpoModel.Lemmas.C13Base
+import MenpoModel.Lemmas.C13Set
+import MenpoModel.Lemmas.C13Sampler
+import MenpoModel.Lemmas.C13Api
+import MenpoModel.Lemmas.C13Seq
+import MenpoModel.Core.C13Entry
